@@ -456,6 +456,12 @@ def search(prop, seed, spec, workdir):
         futs = []
         for r in range(4):
             for pi, (kind, profile, hists, ops, extra) in enumerate(plans):
+                if kind == "enum":
+                    # bounded-exhaustive plans: one level deeper, all shards, once
+                    if r == 0:
+                        for s in range(16):
+                            futs.append(ex.submit(run_profile, f"s{r}_enum{profile}{pi}_{s}", kind, profile, s, 16, ops + 1, extra, sd))
+                    continue
                 for s in range(4):
                     tag = f"s{r}_{kind}{profile}{pi}_{s}"
                     futs.append(ex.submit(run_profile, tag, kind, profile, (seed + 7919 * (r + 1)) * 1000 + pi * 37 + s,
